@@ -66,6 +66,12 @@ def cells(tier):
         out.append({'backend': 'dict', 'n': 2, 'rounds': 2,
                     'bounce_queue': 'self',
                     'kinds': ['mapping', 'transient', 'permanent']})
+        # the smallest bounded pools, alone and together
+        out.append({'backend': 'dict', 'n': 2, 'rounds': 2, 'store_pool': 1,
+                    'kinds': ['mapping', 'transient', 'permanent', 'none']})
+        out.append({'backend': 'disk', 'n': 2, 'rounds': 2, 'store_pool': 1,
+                    'relay_pool': 1,
+                    'kinds': ['mapping', 'transient', 'permanent', 'none']})
         out.append({'backend': 'dict', 'n': 2, 'rounds': 2, 'rev_map': 1,
                     'kinds': ['mapping', 'transient']})
         out.append({'backend': 'dict', 'n': 2, 'rounds': 2, 'split': 1,
